@@ -450,8 +450,14 @@ def parse_datetime(kind, s):
 _REF = dict(y=1972, mo=12, d=31, h=0, mi=0, s=Fraction(0))   # only used to line up fields of the same type
 
 
+HOUR24_NOT_ROLLED = False        # diagnosis only: hour 24 stays on its day when no real offset forces a normalisation
+
+
 def dt_timeline(v, tz_default=None):
     """seconds on the time line of the starting instant (Fraction); tz_default minutes used when v has no time zone"""
+    if HOUR24_NOT_ROLLED and v.h24 and v.tz in (None, 0):
+        v2 = DT(v.kind, v.y, v.mo, v.d, v.h, v.mi, v.s, v.tz, False)
+        return dt_timeline(v2, tz_default) - Fraction(1, 10 ** 12)      # after every instant of its day, before the next midnight
     y = v.y if v.y is not None else _REF['y']
     if y < 0:
         y += 1                     # XSD 1.0: no year zero
@@ -1597,6 +1603,24 @@ CATALOGUE = {
                      'AAAAAAA', 'AA=A', 'A=AA', 'AAA=AAAA'],
     'duration': [],
     'anyURI': [],
+    'date': ['2000-02-29', '1900-02-29', '2004-02-29', '2001-02-29', '0400-02-29', '2100-02-29', '2400-02-29', '1600-02-29', '0800-02-29', '1200-02-29', '2000-02-30', '1999-02-28', '1999-02-29',
+             '2001-01-31', '2001-03-31', '2001-04-30', '2001-04-31', '2001-05-31', '2001-06-30', '2001-06-31', '2001-07-31', '2001-08-31', '2001-09-30', '2001-09-31', '2001-10-31', '2001-11-30', '2001-11-31',
+             '2001-12-31', '2001-12-32', '2001-01-32', '2001-00-10', '2001-13-01', '2001-10-00', '2001-01-01Z', '2001-01-01+14:00', '2001-01-01-14:00', '2001-01-01+14:01', '2001-01-01+00:00', '2001-01-01-00:00',
+             '2001-1-01', '01-01-01', '20010101', '2001-01-01T00:00:00', '10000-01-01', '010000-01-01', '0001-01-01', '9999-12-31', '-0001-01-01', '+2001-01-01', '2001-01-01 ', '2001-01-01z'],
+    'dateTime': ['2000-02-29T12:00:00', '1900-02-29T12:00:00', '2004-02-29T00:00:00Z', '2001-02-29T12:00:00', '0400-02-29T23:59:59', '2100-02-29T12:00:00', '2400-02-29T12:00:00Z', '1600-02-29T12:00:00', '2000-02-30T12:00:00',
+                 '2001-04-30T12:00:00', '2001-04-31T12:00:00', '2001-06-31T12:00:00', '2001-09-31T12:00:00', '2001-10-31T12:00:00', '2001-11-30T12:00:00', '2001-11-31T12:00:00', '2001-12-31T24:00:00', '2001-12-31T24:00:00Z',
+                 '2001-12-31T24:00:00.000', '2001-12-31T24:00:01', '2001-12-31T24:01:00', '2001-12-31T24:00:00.1', '2001-12-31T25:00:00', '2001-12-31T23:60:00', '2001-12-31T23:59:60', '2001-12-31T23:59:59.999999',
+                 '2002-01-01T00:00:00', '2002-01-01T00:00:00Z', '2001-12-31T23:00:00-01:00', '2002-01-01T01:00:00+01:00', '2001-12-31T10:00:00-14:00', '2002-01-01T14:00:00+14:00', '2002-01-01T00:00:00+14:01',
+                 '2002-01-01T00:00:00+00:00', '2002-01-01T00:00:00-00:00', '2002-01-01T00:00:00.0', '2002-01-01T00:00:00.', '2002-01-01T0:00:00', '2002-01-01 00:00:00', '2002-01-01t00:00:00', '2002-01-01T00:00',
+                 '2002-01-01', '0001-01-01T00:00:00', '9999-12-31T23:59:59', '10000-01-01T00:00:00', '2000-03-01T00:00:00+14:00', '2000-02-29T10:00:00Z', '2000-03-01T00:00:00-14:00', '1999-12-31T24:00:00', '2000-01-01T00:00:00'],
+    'time': ['00:00:00', '24:00:00', '24:00:00Z', '24:00:00.0', '24:00:01', '24:01:00', '23:59:59', '23:59:60', '23:60:00', '25:00:00', '12:00:00.5', '12:00:00.50', '12:00:00.', '12:00:00Z', '12:00:00+14:00', '12:00:00-14:00',
+             '12:00:00+14:01', '12:00:00+13:59', '12:00:00+00:00', '12:00:00-00:00', '13:00:00+01:00', '11:00:00-01:00', '1:00:00', '12:00', '12:00:0', '120000', '12:00:00z', 'T12:00:00'],
+    'gYearMonth': ['2000-02', '2000-12', '2000-13', '2000-00', '2000-1', '2000-02Z', '2000-02+14:00', '2000-02-14:00', '2000-02+14:01', '0000-01', '10000-01', '010000-01', '-0001-12', '2000-02-01', '200-02', '2000-02+00:00'],
+    'gYear': ['2000', '0001', '9999', '10000', '010000', '0000', '-0001', '200', '2000Z', '2000+14:00', '2000-14:00', '2000+14:01', '+2000', '2000-01', '2000+00:00', '2000-00:00', '02000'],
+    'gMonthDay': ['--02-29', '--02-30', '--02-28', '--04-30', '--04-31', '--06-31', '--09-31', '--11-31', '--11-30', '--12-31', '--12-32', '--01-31', '--01-32', '--00-10', '--13-01', '--01-00', '--02-29Z', '--02-29+14:00',
+                  '--02-29-14:00', '--2-29', '-02-29', '--0229', '--02-29+14:01', '--03-31', '--05-31', '--07-31', '--08-31', '--10-31', '--09-30', '--06-30'],
+    'gDay': ['---01', '---31', '---32', '---00', '---1', '---01Z', '---01+14:00', '---01-14:00', '---15+14:01', '--01', '----01', '---30', '---29'],
+    'gMonth': ['--01', '--12', '--13', '--00', '--1', '--01Z', '--01+14:00', '--01-14:00', '--01--', '--12--', '--01+14:01', '-01', '--001'],
 }
 
 
